@@ -4,6 +4,11 @@ import json, subprocess
 
 # id: (level, engine, technique, level text, level note, design ref)
 CHECKS = {
+ "C19": ("exploration", "space",
+         "complete enumeration of container type x element index x special-value alphabet, and of fixed angle lattices, against element-wise definitions",
+         "Every tuple type (Coor2D/3D/4D/32, (f64,f64)) x every element index 0..dim+2 x 13 special values (NaN, infinities, signed zeros, subnormal, huge) for every accessor, bulk accessor, update length and arithmetic operator (all value pairs); every set container (arrays, slices, vectors of all four tuple types, the height/epoch adapters with 12 fixed-value combinations, a user container using only the trait defaults) x all 13^4 written tuples; angle encodings on every 0.5 arcsec in [-2,2] deg, every arc-minute in [-720,720] deg (thorough: 0.05 arcsec / every arc-second), carry neighbourhoods and the full (d,m,s) integer lattice incl. d = 0.",
+         "Exhaustive over the stated alphabets and lattices only; says nothing about values between lattice points. Loss 'beyond rounding' is judged as 4 ulp of the encoded value in its finest unit.",
+         "DESIGN.md §3 C19"),
  "C11": ("model_checking", "space",
          "complete enumeration of the finite parameter spaces named in the property, real operators vs. table-driven reference",
          "All 1920x1920 adapt from/to pairs (forward vs. reference mapping, inverse vs. exact reverse), all 4096 four-letter words x 12 suffixes for acceptance/rejection, all 1920 'to=X' vs 'inv from=X' equivalences, the 8 built-in adaptor macros; every index list of length <= 5 over -5..5 for axisswap (442 valid ones compared with the documented signed permutation, all others must be rejected); every ordered pair of the 24 xy and 21 z units for unitconvert against PROJ's published factors; unit table hygiene via hook H3. Both tiers run the complete space.",
@@ -62,7 +67,7 @@ def main():
             "add_only": True,
         },
         "engines": [
-            {"name": "space", "path": "/verif/mc/src/engine.rs", "kind_free_text": "exhaustive mixed-radix product enumeration on 16 threads (par_range/decode)", "serves_properties": ["C11"]},
+            {"name": "space", "path": "/verif/mc/src/engine.rs", "kind_free_text": "exhaustive mixed-radix product enumeration on 16 threads (par_range/decode)", "serves_properties": ["C11", "C19"]},
             {"name": "explore", "path": "/verif/mc/src/props", "kind_free_text": "explicit-state / program-tree exploration of the real API against reference models written in Rust", "serves_properties": ["C03", "C04", "C12"]},
             {"name": "workers", "path": "/verif/mc/src/engine.rs", "kind_free_text": "worker subprocesses (2 MiB stack, 4 GiB address space, watchdog) for hang / overflow / abort detection", "serves_properties": ["C04"]},
         ],
